@@ -949,6 +949,50 @@ def _public_state(obj):
     return out
 
 
+REINIT_OPS = {"dt2": ("dt", 2 * 0.1), "dt1": ("dt", 0.1), "order1": ("order", 1), "order2": ("order", 2), "keep": None}
+
+
+def reinit_case(hist):
+    """One PtTebd object and its parameter object: after every element of the history a public attribute of the
+    parameters is assigned, initialize() is called and three steps are computed; every result must equal that of a
+    freshly constructed PtTebd with freshly constructed parameters of the same values (times and states)."""
+    def chain():
+        ch = oq.SystemChain(hilbert_space_dimensions=[2, 2])
+        ch.add_site_hamiltonian(site=0, hamiltonian=0.5 * M.SX)
+        ch.add_site_hamiltonian(site=1, hamiltonian=0.3 * M.SZ + 0.2 * M.SX)
+        ch.add_nn_hamiltonian(site=0, hamiltonian_l=0.4 * M.SZ, hamiltonian_r=M.SZ)
+        ch.add_site_dissipation(1, M.SM, 0.2)
+        return ch
+    vals = {"dt": 0.1, "order": 2}
+    prm = oq.PtTebdParameters(dt=vals["dt"], order=vals["order"], epsrel=1e-10)
+    t = oq.PtTebd(oq.AugmentedMPS([M.RHO_GEN2, M.RHO_PLUS]), chain(), [None, None], prm, dynamics_sites=[0, 1])
+    t.compute(2, progress_type="silent")
+    vio = []
+    for i, op in enumerate(hist):
+        if REINIT_OPS[op] is not None:
+            a, v = REINIT_OPS[op]
+            setattr(prm, a, v)
+            vals[a] = v
+        try:
+            t.initialize()
+            r = t.compute(3, progress_type="silent")
+            f = oq.PtTebd(oq.AugmentedMPS([M.RHO_GEN2, M.RHO_PLUS]), chain(), [None, None],
+                          oq.PtTebdParameters(dt=vals["dt"], order=vals["order"], epsrel=1e-10), dynamics_sites=[0, 1])
+            e = f.compute(3, progress_type="silent")
+        except Exception as ex:  # noqa
+            vio.append((f"reinit|{op}|exception:{type(ex).__name__}", f"history {hist[:i + 1]}: {ex}"[:160]))
+            break
+        for site in (0, 1):
+            got, exp = r["dynamics"][site], e["dynamics"][site]
+            if len(got.times) != len(exp.times) or np.abs(np.asarray(got.times) - np.asarray(exp.times)).max() > 1e-12:
+                vio.append((f"reinit|{op}|times-differ-from-a-fresh-object", f"history {hist[:i + 1]} site {site}"))
+            elif np.abs(np.asarray(got.states) - np.asarray(exp.states)).max() > 1e-7:
+                vio.append((f"reinit|{op}|states-differ-from-a-fresh-object",
+                            f"history {hist[:i + 1]} site {site}: re-initialised PtTebd with {vals} differs from a fresh one by "
+                            f"{np.abs(np.asarray(got.states) - np.asarray(exp.states)).max():.2e}"))
+    return {"vio": vio, "n": len(hist)}
+
+
 PARAM_COMPS = ["pt-short", "pt-long", "tempo-short", "tempo-long", "mf-long", "gibbs", "gibbs-cold", "tebd"]
 
 
@@ -1166,6 +1210,11 @@ def run(tier, seed):
         trans += r["n"]
         for cls, what in r["vio"]:
             rep.add(Violation(cls, what, {"part": "parameters", "perm": [p_[0], list(p_[1])]}))
+    rih = [h_ for n_ in (1, 2, 3 if tier == "quick" else 4) for h_ in itertools.product(sorted(REINIT_OPS), repeat=n_)]
+    for h_, r in zip(rih, pmap(reinit_case, rih, seed=seed)):
+        trans += r["n"]
+        for cls, what in r["vio"]:
+            rep.add(Violation(cls, what, {"part": "reinit", "hist": list(h_)}))
     rperms = [(p_, False) for p_ in itertools.permutations(RESOLUTION_COMPS, 3 if tier == "quick" else 4)]
     rperms += [(p_, True) for p_ in itertools.permutations(["tempo-dt1", "tempo-dt2", "mf-dt1", "mf-dt2", "free-dt1"], 2 if tier == "quick" else 3)]
     qres = pmap(resolution_case, rperms, seed=seed)
@@ -1178,7 +1227,7 @@ def run(tier, seed):
         "transitions": trans + nl,
         "traces_validated_against_impl": len(jobs) + nl + len(perms),
         "histories": len(jobs), "history_depth": depth, "layout_runs": nl, "apis_with_array_arguments": len(names),
-        "reuse_orders": len(perms), "bath_dynamics_query_histories": len(bh), "resolution_orders": len(rperms), "pure_functions": len(pnames), "chain_histories": len(chs), "parameter_object_orders": len(pperms),
+        "reuse_orders": len(perms), "bath_dynamics_query_histories": len(bh), "resolution_orders": len(rperms), "pure_functions": len(pnames), "chain_histories": len(chs), "parameter_object_orders": len(pperms), "reinitialisation_histories": len(rih),
         "exhaustive": tier == "thorough",
         "rule": "state = (current public parameter values of objects A and B, selected object, parameters the latest bath was "
                 "built with); every history over {E,B,R,T,S1,S2,X} up to the depth that ends in an observation is executed on real "
@@ -1214,6 +1263,9 @@ def replay(rp):
         return {"obs": r["vio"], "violation": r["vio"][0][0] if r["vio"] else None}
     if rp["part"] == "parameters":
         r = parameter_case((rp["perm"][0], tuple(rp["perm"][1])))
+        return {"obs": r["vio"], "violation": r["vio"][0][0] if r["vio"] else None}
+    if rp["part"] == "reinit":
+        r = reinit_case(tuple(rp["hist"]))
         return {"obs": r["vio"], "violation": r["vio"][0][0] if r["vio"] else None}
     if rp["part"] == "chain":
         r = chain_history_case(tuple(rp["hist"]))
